@@ -24,7 +24,7 @@ var (
 	c18Role      = []string{"", "presentation", "grid", "treegrid", "main", "note"}
 	c18DescRole  = []string{"", "row", "gridcell", "navigation"}
 	c18Datatable = []string{"", "0", "1"}
-	c18Nested    = []string{"no", "yes"}
+	c18Nested    = []string{"no", "yes", "empty"}
 	c18Shapes    = [][]int{{3}, {1, 1, 1}, {2, 2}, {4, 4}, {5, 5}, {2, 2, 2, 2, 2}, {4, 4, 3}, {4, 4, 4}, rowsOf(19, 2), rowsOf(20, 2)}
 	c18ShapeName = []string{"1x3", "3x1", "2x2", "2x4", "2x5", "5x2(10 cells)", "ragged 4+4+3(11 cells)", "3x4", "19x2", "20x2"}
 	c18Header    = []string{"none", "caption", "thead", "tfoot", "colgroup", "col", "th"}
@@ -72,6 +72,13 @@ func (v c18Vec) String() string {
 // renderTable renders the <table> element of a vector; every cell carries words (w<N>).
 func (v c18Vec) renderTable() string { return v.renderTableWith("w", "T") }
 
+func c18HiddenStyle() string {
+	if c18HideFeatures {
+		return ` style="display:none"`
+	}
+	return ""
+}
+
 // otherIndex derives a second vector (used as the table that precedes this one).
 func (v c18Vec) otherIndex() int {
 	d := c18Dims()
@@ -83,6 +90,11 @@ func (v c18Vec) otherIndex() int {
 	}
 	return idx
 }
+
+// c18HideFeatures: when set, rule-relevant descendants are rendered invisible (the embedded object
+// gets display:none, all rows after the second get the hidden attribute). The documented rules speak
+// about the table's structure, not about what is visible, so the verdict must not change.
+var c18HideFeatures = false
 
 func (v c18Vec) renderTableWith(prefix, id string) string {
 	var b strings.Builder
@@ -133,6 +145,9 @@ func (v c18Vec) renderTableWith(prefix, id string) string {
 		if ri == 0 && c18DescRole[v.DescRole] == "row" {
 			b.WriteString(` role="row"`)
 		}
+		if c18HideFeatures && ri >= 2 {
+			b.WriteString(` hidden`)
+		}
 		b.WriteString(">")
 		for ci := 0; ci < cols; ci++ {
 			first := ri == 0 && ci == 0
@@ -158,20 +173,23 @@ func (v c18Vec) renderTableWith(prefix, id string) string {
 			switch {
 			case first && c18Cell[v.Cell] == "lone-abbr-child":
 				b.WriteString("<abbr>" + word() + "</abbr>")
-			case last && (v.Nested == 1 || v.Object != 0) && !(first && c18Cell[v.Cell] == "lone-abbr-child"):
+			case last && (v.Nested != 0 || v.Object != 0) && !(first && c18Cell[v.Cell] == "lone-abbr-child"):
 				b.WriteString(word())
-				if v.Nested == 1 {
+				switch v.Nested {
+				case 1:
 					b.WriteString("<table><tr><td>" + word() + "</td></tr></table>")
+				case 2:
+					b.WriteString(`<table id="placeholder"></table>`) // a nested table without any element inside
 				}
 				switch c18Object[v.Object] {
 				case "embed":
-					b.WriteString(`<embed src="x.swf">`)
+					b.WriteString(`<embed src="x.swf"` + c18HiddenStyle() + `>`)
 				case "object":
-					b.WriteString(`<object data="x.swf"></object>`)
+					b.WriteString(`<object data="x.swf"` + c18HiddenStyle() + `></object>`)
 				case "applet":
-					b.WriteString(`<applet code="x.class"></applet>`)
+					b.WriteString(`<applet code="x.class"` + c18HiddenStyle() + `></applet>`)
 				case "iframe":
-					b.WriteString(`<iframe src="http://ads.example.net/x"></iframe>`)
+					b.WriteString(`<iframe src="http://ads.example.net/x"` + c18HiddenStyle() + `></iframe>`)
 				}
 			default:
 				b.WriteString(word())
@@ -351,8 +369,9 @@ func c18Reference(f c18Feat) (string, int, []int) {
 }
 
 type c18Extra struct {
-	Index int  `json:"index"`
-	API   bool `json:"api"`
+	Index  int  `json:"index"`
+	API    bool `json:"api"`
+	Hidden bool `json:"hidden"`
 }
 
 func findTableT(doc *html.Node) *html.Node {
@@ -408,6 +427,20 @@ func checkC18(c *Case) (*Violation, caseInfo) {
 				v, placement, got, reason, wantRef, wantDec, pholds, truncate(v.renderTable(), 800)), info
 		}
 		continue
+	}
+	// API level, rule-relevant descendants invisible: the verdict (and with it whether a <table> is
+	// kept) must be the one of the visible variant
+	if ex.Hidden && (v.Object != 0 || v.Shape >= 8) {
+		c18HideFeatures = true
+		page := v.page(2)
+		c18HideFeatures = false
+		_, out := applyHTML(page, OptSpec{})
+		if !out.Panicked && out.Err == nil && out.Res != nil {
+			info.Classes = append(info.Classes, "api-level-hidden-features")
+			if has := tableWithWord(out.Res.Node, "w1x"); has != (ref == "data") {
+				return violationf("C18 api-hidden-features-disagree expected="+ref, "table {%s} with its embedded object / rows 3.. made invisible: verdict %s but <table> kept = %v", v, ref, has), info
+			}
+		}
 	}
 	// API level: the table follows a long retained paragraph
 	if ex.API {
@@ -474,7 +507,7 @@ func TestC18(t *testing.T) {
 		}
 		n++
 		c := &Case{Property: "C18", Kind: "vector"}
-		c.SetExtra(c18Extra{Index: idx, API: mixIndex(idx+7)%97 == 0})
+		c.SetExtra(c18Extra{Index: idx, API: mixIndex(idx+7)%97 == 0, Hidden: mixIndex(idx+13)%8 == 0})
 		c.HTML = "" // rendered from the index
 		if v := evalCase(c, checkC18); v != nil {
 			t.Fatalf("property C18 violated [%s]: %s", v.Signature, v.Detail)
